@@ -28,10 +28,13 @@ VARIABLES ir, sr, ps, ret
 vars == <<ir, sr, ps, ret>>
 
 St(ms) == AnonStruct(L!Named(ms))
+(* eightbytes that mix a float with a later or earlier integer field (INTEGER class whichever
+   comes first) are in the part of the pool every tier uses *)
 APool == <<I32, I64, U8, F64, F32, Ptr(FALSE, I32), Bool,
           St(<<I64, I64>>), St(<<F64, F64>>), St(<<I64, F64>>), St(<<F64, I32>>),
+          St(<<F32, I32>>), St(<<I32, F32>>), St(<<I64, F32, U8>>),
           St(<<I64, U8>>), St(<<F32, F32, F32>>), St(<<I64, I64, I64>>),
-          St(<<U8, U8, U8>>), St(<<I32, U8>>), St(<<F32>>), St(<<I32, F32>>), St(<<F32, I32>>),
+          St(<<U8, U8, U8>>), St(<<I32, U8>>), St(<<F32>>), St(<<F32, U8, U8>>),
           St(<<F32, F32, I64>>), St(<<Arr(12, U8)>>), St(<<Arr(17, U8)>>), St(<<F64, F64, F64>>),
           St(<<I16, U8, I32, F32>>), St(<<Arr(64, U8)>>), Opt(Ptr(FALSE, I32)), I16, U64, Char,
           St(<<F64, F32>>), St(<<U8, F64>>), St(<<I32, I32, I32, I32>>), St(<<Arr(3, F32), U8>>)>>
